@@ -56,6 +56,10 @@ def mc_c14(results):
             'state_graph_note': 'states = finite float/double bit patterns visited; transitions = nextFloat/prevFloat (and n-step chains) executed on the implementation; every transition is compared with the reference model, so validated == transitions'}
 
 PROPS = {
+ 'C01': dict(src='drivers/c01.cpp', level='exploration', parts=13, flags=['-O1'],
+   technique='exhaustive enumeration of the alphabet (component-wise function or operator) x (overload shape) x (vector length 1-4) x (element type) x (qualifier) with complete products of a special-value lattice as inputs, every tuple placed in every lane; oracle = the scalar overload of GLM itself on each component',
+   text='Every component-wise function and operator of common/exponential/trigonometric/integer/vector_relational and their ext/gtc/gtx twins is instantiated for every length 1-4, highp/mediump/lowp and every element type it accepts (float, double, int, uint, i8, u8, i16, u16, i64, u64, bool), in every overload shape (vec-vec, vec-scalar, scalar-vec, vec-vec1, vec1-vec, scalar-edge forms, out-parameter forms, compound assignment, ++/--), and evaluated on the complete n-ary product of the special-value lattice; component i of the vector result is compared with the scalar overload on component i (identical bits for selection/rounding/comparison/integer/single-libm-call functions, value equality for arithmetic operators, rounding tolerance for mix/smoothstep/mod/fma, 2^-8 relative for lowp inversesqrt). Matrix abs/mix/equal on all nine shapes.',
+   rule='VALUES<T>: 77 float / 80 double special values (+-0, subnormals, ties, 2^23, 2^24, 2^31, max, inf, quiet and signalling NaN ...), 23 integer patterns per width (0, 1, extremes, alternating and run patterns); unary ops sweep VALUES, binary VALUES^2, ternary VALUES^3; lane k of a vector receives the tuple at rotated indices so neighbouring lanes always hold different tuples. Non-trivial = tuple inside the operator domain (no signed overflow, no division by zero, shift count < width).'),
  'C02': dict(src='drivers/c02.cpp', level='model_checking', mc=mc_c02, parts=7, quick_parts=[0, 1, 2], flags=['-O1'],
    technique='exhaustive enumeration of operand lattices that are complete for bilinear index errors (TAG, DEV_2 over base 0, DEV_1 over TAG) for all 27 products / 9 shapes / 81 conversions, plus breadth-first exploration of all operation sequences up to a depth over a 12-operation alphabet, each replayed on the real matrix objects and on a plain-array reference model',
    text='Stateless part: every shape x compatible operand shape x element type is evaluated on all operand tuples differing from zero in at most two entries (five non-zero values each), on distinct-prime tagged operands and their single-entry deviations; by bilinearity this exposes every wrong, missing, duplicated or mis-signed product term. Explicit-state part: all sequences (depth 2 quick, 3-4 thorough) of compound assignments, ++/--, negation, self-multiplication (aliasing) and transpose from three start matrices per shape, states = value vectors, every transition validated against the array model.',
